@@ -80,7 +80,16 @@ fn run_once(sched: &Arc<Sched>, sc: &Value, sc_ix: usize, run_ix: usize, out: &A
     // same ids for the same number of calls" is judged on the raw ids of these two and of the concurrent run
     let gen3 = mk();
     let seq3: Vec<Value> = (0..total).map(|_| json!(gen3.next().to_string())).collect();
-    out.push(json!({"k": "end", "counter": sint(gen.verif_counter().0.wrapping_sub(start)), "gen2": seq2, "gen3": seq3, "total": total}));
+    // a generator positioned at counter c through its serde form is a generator that has made c calls: by
+    // reproducibility its first c ids are those of a fresh generator with the same namespace, and by uniqueness
+    // none of them may come again - so the ids of this run must be disjoint from the first ids of a fresh one
+    let early: Vec<Value> = if start >= (total as u64) + 8 {
+        let fresh = UuidGenerator::new(ns);
+        (0..total + 8).map(|_| json!(fresh.next().to_string())).collect()
+    } else {
+        vec![]
+    };
+    out.push(json!({"k": "end", "counter": sint(gen.verif_counter().0.wrapping_sub(start)), "gen2": seq2, "gen3": seq3, "early": early, "total": total}));
     let g = rec.lock().unwrap().clone();
     g
 }
